@@ -12,13 +12,21 @@
 (*   slack   added to the AtLeastOnce bound (10 s)                            *)
 (*   rslack  added to the settle timeout for ReadyEventually (10 s)           *)
 (*   dupmin  two deliveries closer than this are the race the peer timeout    *)
-(*           exists for: max(10 x the gossip latency measured in this run     *)
-(*           through the API, 300 ms); no verdict when it is not below the    *)
-(*           peer timeout                                                     *)
-(*   dupmax  repeat_interval / 2                                              *)
-(*   late    a delivery within 500 ms before a clean stop need not be         *)
-(*           remembered;  ptol: a kill keeps what is older than the           *)
-(*           maintenance interval + 2 s.                                      *)
+(*           exists for.  base = max(10 x the gossip latency measured in this *)
+(*           run through the API, 300 ms).  For an alert that was posted      *)
+(*           exactly once, to all instances (one right after the other):      *)
+(*           base - every later instance starts its wait before the first     *)
+(*           delivery ends, so any duplicate farther apart than gossip is the *)
+(*           program's; for an alert posted to the instances at different     *)
+(*           times: base + the duration of a delivery (the receiver answers   *)
+(*           after `hook` ms) + the stagger of a post.  No verdict when       *)
+(*           dupmin is not below the peer timeout                             *)
+(*   dupmax  repeat_interval / 2 (duplicates);  repmax: 3/4 repeat_interval   *)
+(*           (a repeat after a restart: the log compares its own timestamps,  *)
+(*           a legitimate repeat is more than repeat_interval later)          *)
+(*   late    a delivery that reached the (slow) receiver less than 4.2 s      *)
+(*           before a clean stop need not be remembered;  ptol: a kill keeps  *)
+(*           what is older than the maintenance interval + 5.2 s.             *)
 (* Every event is consumed; violated clauses and doubts are collected         *)
 (* (register 2) and printed as the @@V line.  A clause is a VIOLATION only    *)
 (* with control evidence, otherwise a DOUBT (inconclusive case):              *)
@@ -51,7 +59,8 @@ ToSetOf(s) == {s[k] : k \in 1 .. Len(s)}
 MaxI(x, y) == IF x > y THEN x ELSE y
 
 NoPar == [gw |-> 0, gi |-> 0, ri |-> 0, pt |-> 0, st |-> 0, mint |-> 0, slack |-> 0, rslack |-> 0,
-          dupmin |-> 0, dupmax |-> 0, late |-> 0, ptol |-> 0, maint |-> 0, dupfloor |-> 0, n |-> 0, solo |-> FALSE, run |-> "", alerts |-> {}]
+          dupmin |-> [a \in Alerts |-> 0], dupmax |-> 0, repmax |-> 0, late |-> 0, ptol |-> 0, maint |-> 0, dupfloor |-> 0, n |-> 0, solo |-> FALSE, run |-> "", alerts |-> {},
+          base |-> 0, hook |-> 0, np |-> [a \in Alerts |-> 0], full |-> [a \in Alerts |-> FALSE]]
 
 Blank ==
   /\ now' = 0
@@ -97,9 +106,11 @@ Cfg ==
   /\ Blank
   /\ par' = [gw |-> ev.gw, gi |-> ev.gi, ri |-> ev.ri, pt |-> ev.pt, st |-> ev.st, mint |-> ev.mint,
              slack |-> ev.slack, rslack |-> ev.rslack,
-             dupmin |-> ev.pt, dupmax |-> ev.ri \div 2,       \* no latency measured yet: NoDuplicate gives no verdict
+             dupmin |-> [a \in Alerts |-> ev.pt], dupmax |-> ev.ri \div 2, repmax |-> (3 * ev.ri) \div 4,
              late |-> ev.late, ptol |-> ev.ptol, maint |-> ev.maint, dupfloor |-> ev.dupfloor,
-             n |-> ev.n, solo |-> ev.solo, run |-> ev.run, alerts |-> ToSetOf(ev.alerts)]
+             n |-> ev.n, solo |-> ev.solo, run |-> ev.run, alerts |-> ToSetOf(ev.alerts),
+             base |-> ev.pt,                                   \* no latency measured yet: NoDuplicate gives no verdict
+             hook |-> ev.hook + ev.n * ev.stagger, np |-> [a \in Alerts |-> 0], full |-> [a \in Alerts |-> FALSE]]
   /\ healthy' = ~ev.solo
 
 EvStart ==
@@ -132,9 +143,16 @@ EvDown ==
 
 AllReady == \A i \in 1 .. par.n : life[i] = "up" /\ rdy[i] /\ resp[i] /\ seen[i] = par.n
 
+DupMinOf(b, h, np, full) == [a \in Alerts |-> IF np[a] = 1 /\ full[a] THEN b ELSE b + h]
+
 EvPost ==
+  LET a == ev.a
+      np == IF a \in Alerts THEN [par.np EXCEPT ![a] = @ + 1] ELSE par.np
+      full == IF a \in Alerts THEN [par.full EXCEPT ![a] = (Len(ev.to) = par.n)] ELSE par.full
+  IN
   /\ BkPost(AllReady /\ \A k \in 1 .. Len(ev.codes) : ev.codes[k] = 200)
-  /\ Same(Obs1) /\ Same(Tr1)
+  /\ par' = [par EXCEPT !.np = np, !.full = full, !.dupmin = DupMinOf(par.base, par.hook, np, full)]
+  /\ Same(Obs1) /\ UNCHANGED <<seen, resp, ctl, ext>>
 
 EvSil ==
   /\ IF ev.code = 200 THEN BkAck(ev.i, ev.a, ev.t) ELSE BkSame
@@ -181,8 +199,10 @@ EvCtlPost ==
   /\ BkSame /\ Same(Obs1) /\ UNCHANGED <<par, seen, resp, ctl>>
 
 EvLat ==
-  /\ par' = [par EXCEPT !.dupmin = IF par.dupmin = par.pt THEN MaxI(10 * ev.ms, par.dupfloor)
-                                   ELSE MaxI(par.dupmin, MaxI(10 * ev.ms, par.dupfloor))]
+  LET m == MaxI(10 * ev.ms, par.dupfloor)
+      b == IF par.base = par.pt THEN m ELSE MaxI(par.base, m)
+  IN
+  /\ par' = [par EXCEPT !.base = b, !.dupmin = DupMinOf(b, par.hook, par.np, par.full)]
   /\ BkSame /\ Same(Obs1) /\ UNCHANGED <<seen, resp, ctl, ext>>
 
 Other == BkSame /\ Same(Obs1) /\ Same(Tr1)
@@ -217,7 +237,7 @@ Starved == {q \in Inst \X Alerts :
 Controlled(q) == \E c \in ctl' : c.ext /\ c.t >= since'[q[1]][q[2]]
 ClosePairs == {pr \in (1 .. Len(sent')) \X (1 .. Len(sent')) :
                  /\ pr[1] < pr[2] /\ sent'[pr[1]].a = sent'[pr[2]].a
-                 /\ sent'[pr[2]].t - sent'[pr[1]].t <= par'.dupmin /\ pr[2] = Len(sent')}
+                 /\ sent'[pr[2]].t - sent'[pr[1]].t <= par'.dupmin[sent'[pr[2]].a] /\ pr[2] = Len(sent')}
 Unready == {i \in Inst : life'[i] = "up" /\ now' - upAt'[i] > par'.st + par'.rslack /\ ~rdy'[i]}
 Lost == {q \in Inst \X Alerts : life'[q[1]] = "up" /\ owe'[q[1]][q[2]].lvl = 2 /\ sv'[q[1]][q[2]] \notin {1, 3}}
 
@@ -231,9 +251,9 @@ Report ==
   /\ ((ev.ev = "deliver" /\ Len(sent') > Len(sent)) =>
         /\ ((~NoDuplicateP(par)' /\ DupPairs(par)' # DupPairs(par)) =>
               N("violation", "C08_NoDuplicateWhenHealthy", [second |-> sent'[Len(sent')], pairs |-> DupPairs(par)' \ DupPairs(par), dupmin |-> par'.dupmin]))
-        /\ ((healthy' /\ par'.n > 1 /\ par'.dupmin < par'.pt /\ ClosePairs # {}) =>
+        /\ ((healthy' /\ par'.n > 1 /\ ev.a \in Alerts /\ par'.dupmin[ev.a] < par'.pt /\ ClosePairs # {}) =>
               N("doubt", "duplicate_within_gossip_latency", [second |-> sent'[Len(sent')], dupmin |-> par'.dupmin]))
-        /\ ((healthy' /\ par'.n > 1 /\ par'.dupmin >= par'.pt /\ \E k \in 1 .. Len(sent) : sent[k].a = ev.a /\ ev.t - sent[k].t <= par'.dupmax) =>
+        /\ ((healthy' /\ par'.n > 1 /\ ev.a \in Alerts /\ par'.dupmin[ev.a] >= par'.pt /\ \E k \in 1 .. Len(sent) : sent[k].a = ev.a /\ ev.t - sent[k].t <= par'.dupmax) =>
               N("doubt", "duplicate_but_gossip_not_faster_than_peer_timeout", [second |-> sent'[Len(sent')], dupmin |-> par'.dupmin]))
         /\ ((~NoRepeatP' /\ sent'[Len(sent')].rep) =>
               N("violation", "C11_NoRepeatAfterRestart", [second |-> sent'[Len(sent')], first |-> told[ev.i][ev.a]]))
